@@ -4,6 +4,7 @@ pub mod checks;
 pub mod common;
 pub mod engine;
 pub mod known;
+pub mod longcall;
 pub mod model;
 pub mod registry;
 pub mod selfcheck;
